@@ -465,16 +465,22 @@ def weave_body(body, d, fname):
             rx, k, _ = parse_anchor(argstr)
             i = find_line(lines, rx, k, fname + ' after')
             inserts_after.setdefault(i, []).extend(text)
-        elif name == 'afterloop':
+        elif name in ('afterloop', 'endloop'):
             rx, k, _ = parse_anchor(argstr)
-            i = find_line(lines, rx, k, fname + ' afterloop')
+            i = find_line(lines, rx, k, fname + ' ' + name)
             rest = '\n'.join(lines[i:])
             pos = _loop_open_brace(rest)
             if pos is None:
-                raise ExtractError('lost anchor: %s afterloop ~%s is not a loop header' % (fname, rx))
+                raise ExtractError('lost anchor: %s %s ~%s is not a loop header' % (fname, name, rx))
             close = _match_brace(rest, pos)
             j = i + rest[:close].count('\n')
-            inserts_after.setdefault(j, []).extend(text)
+            if name == 'afterloop':
+                inserts_after.setdefault(j, []).extend(text)
+            else:
+                # the closing brace must stand alone on its line (rustfmt layout)
+                if lines[j].strip() != '}':
+                    raise ExtractError('lost anchor: %s endloop ~%s: closing brace shares its line' % (fname, rx))
+                inserts_before.setdefault(j, []).extend(text)
         elif name == 'loop':
             rx, k, opts = parse_anchor(argstr)
             i = find_line(lines, rx, k, fname + ' loop')
